@@ -399,3 +399,223 @@ def edge_returns_without(fa, target, effect_blocks):
 def ret_values_in_region(fa, target):
     r = region(fa, target)
     return [(b, s, t) for b, s, t in ret_assigns(fa) if b in r]
+
+
+# ---------------------------------------------------------------- call graph
+class CallGraph:
+    def __init__(self, ctx):
+        self.ctx = ctx
+        self.edges = {}
+        self.ext = {}
+        names = set(ctx.crate.bodies.keys())
+        for fa in ctx.all_fas():
+            out = set()
+            ext = set()
+            for n, t in fa.calls():
+                c = callee_of(t)
+                if c in names:
+                    out.add(c)
+                else:
+                    ext.add(t.get("callee") or "<indirect>")
+                    if t.get("resolved") and t.get("resolved") != t.get("callee"):
+                        ext.add(t["resolved"])
+                # function items passed as values (map_err(f), etc.)
+                for a in t["args"]:
+                    if "k" in a and "fn" in a["k"] and a["k"]["fn"] in names:
+                        out.add(a["k"]["fn"])
+            for b in fa.live():
+                for st in b.stmts:
+                    if st["k"] == "assign" and st["rv"]["k"] == "agg" and st["rv"]["kind"] in ("closure", "coroutine", "coroutine_closure"):
+                        if st["rv"]["name"] in names:
+                            out.add(st["rv"]["name"])
+            self.edges.setdefault(fa.body.name, set()).update(out)
+            self.ext.setdefault(fa.body.name, set()).update(ext)
+
+    def reach_from(self, roots_):
+        seen = set()
+        st = list(roots_)
+        while st:
+            x = st.pop()
+            if x in seen:
+                continue
+            seen.add(x)
+            st.extend(self.edges.get(x, ()))
+        return seen
+
+    def callers_reaching_ext(self, ext_names):
+        """bodies from which a call to one of ext_names is reachable"""
+        ext_names = set(ext_names)
+        direct = set(n for n, e in self.ext.items() if e & ext_names)
+        rev = {}
+        for a, bs in self.edges.items():
+            for b in bs:
+                rev.setdefault(b, set()).add(a)
+        seen = set()
+        st = list(direct)
+        while st:
+            x = st.pop()
+            if x in seen:
+                continue
+            seen.add(x)
+            st.extend(rev.get(x, ()))
+        return seen
+
+
+def cg(ctx):
+    if not hasattr(ctx, "_cg"):
+        ctx._cg = CallGraph(ctx)
+    return ctx._cg
+
+
+def fn_of(body_name):
+    """the fn a closure / coroutine body belongs to"""
+    i = body_name.find("::{closure")
+    return body_name if i < 0 else body_name[:i]
+
+
+# ---------------------------------------------------------------- uses of a local
+def _op_mentions(o, l):
+    p = op_place(o)
+    if p is None:
+        return False
+    if p["l"] == l:
+        return True
+    return any(isinstance(e, dict) and e.get("i") == l for e in p["p"])
+
+
+def _rv_operands(rv):
+    k = rv["k"]
+    if k in ("use", "cast", "repeat"):
+        return [rv["op"]]
+    if k == "bin":
+        return [rv["l"], rv["r"]]
+    if k == "un":
+        return [rv["x"]]
+    if k == "agg":
+        return list(rv["ops"])
+    return []
+
+
+def uses_of(fa, l):
+    """uses of local l: [(bb, pos, kind, detail)]
+    kind: 'call-arg' (detail = term, arg index) | 'stmt' (detail = stmt) |
+    'switch' | 'ref' | 'disc' | 'yield' | 'assert'"""
+    out = []
+    for b in fa.live():
+        for si, st in enumerate(b.stmts):
+            if st["k"] != "assign":
+                continue
+            rv = st["rv"]
+            if rv["k"] in ("ref", "copyderef", "rawptr", "disc"):
+                if rv["place"]["l"] == l:
+                    out.append((b.i, si, "disc" if rv["k"] == "disc" else "ref", st))
+            for o in _rv_operands(rv):
+                if _op_mentions(o, l):
+                    out.append((b.i, si, "stmt", st))
+            if st["place"]["l"] == l and st["place"]["p"]:
+                pass
+        t = b.term
+        if t["k"] == "call":
+            for ai, a in enumerate(t["args"]):
+                if _op_mentions(a, l):
+                    out.append((b.i, None, "call-arg", (t, ai)))
+        elif t["k"] == "switch":
+            if _op_mentions(t["discr"], l):
+                out.append((b.i, None, "switch", t))
+        elif t["k"] == "yield":
+            if _op_mentions(t["value"], l):
+                out.append((b.i, None, "yield", t))
+        elif t["k"] == "assert":
+            if _op_mentions(t["cond"], l):
+                out.append((b.i, None, "assert", t))
+    return out
+
+
+PASS_THROUGH = (
+    "std::result::Result::<T, E>::map_err", "std::result::Result::<T, E>::map", "std::future::IntoFuture::into_future",
+    "std::pin::Pin::<Ptr>::new_unchecked", "std::pin::Pin::<Ptr>::new", "std::result::Result::<T, E>::as_ref", "std::convert::Into::into", "std::convert::From::from",
+    "std::boxed::Box::<T>::pin", "futures::FutureExt::boxed", "std::result::Result::<T, E>::and_then", "std::result::Result::<T, E>::or_else",
+)
+DISCARDERS = (
+    "std::result::Result::<T, E>::ok", "std::result::Result::<T, E>::err", "std::result::Result::<T, E>::unwrap_or_default", "std::result::Result::<T, E>::unwrap_or",
+    "std::result::Result::<T, E>::unwrap_or_else", "std::mem::drop", "std::mem::forget", "std::result::Result::<T, E>::is_ok", "std::result::Result::<T, E>::is_err",
+)
+
+
+def result_consumed(fa, l, depth=0, seen=None):
+    """is the value held in local l examined or propagated?  returns
+    (verdict, how): verdict in 'checked' | 'propagated' | 'dropped' | 'discarded'"""
+    if seen is None:
+        seen = set()
+    if l in seen or depth > 12:
+        return ("propagated", "cycle")
+    seen.add(l)
+    us = uses_of(fa, l)
+    if l == 0:
+        return ("propagated", "return value")
+    verdicts = []
+    is_poll = fa.body.local_ty(l).startswith("std::task::Poll<")
+    for bb, pos, kind, d in us:
+        if kind in ("switch", "disc"):
+            if is_poll:
+                continue  # the await desugaring's own Ready/Pending test
+            return ("checked", "matched at %s" % fa.body.loc(bb, pos))
+        if kind == "call-arg":
+            t, ai = d
+            c = t.get("callee")
+            if c in BRANCH:
+                return ("checked", "? at %s" % fa.body.loc(bb))
+            if c in POLL_ or c in PASS_THROUGH or c in TRANSPARENT_:
+                verdicts.append(result_consumed(fa, t["dest"]["l"], depth + 1, seen))
+            elif c in DISCARDERS:
+                sub = result_consumed(fa, t["dest"]["l"], depth + 1, seen)
+                if sub[0] == "checked" and c.endswith(("is_ok", "is_err", "::ok", "::err")):
+                    verdicts.append(sub)
+                else:
+                    verdicts.append(("discarded", "%s at %s" % (c.split("::")[-1], fa.body.loc(bb))))
+            elif c and (c.endswith("::unwrap") or c.endswith("::expect")):
+                verdicts.append(("checked", "unwrap/expect at %s" % fa.body.loc(bb)))
+            else:
+                verdicts.append(("propagated", "passed to %s" % c))
+        elif kind in ("stmt", "ref"):
+            st = d
+            dl = st["place"]["l"]
+            if dl == l:
+                continue
+            verdicts.append(result_consumed(fa, dl, depth + 1, seen))
+        elif kind == "yield":
+            verdicts.append(("propagated", "yielded"))
+    for want in ("checked", "propagated", "discarded"):
+        for v in verdicts:
+            if v[0] == want:
+                return v
+    return ("dropped", "value is never examined")
+
+
+from .analysis import POLL as POLL_, TRANSPARENT as TRANSPARENT_
+
+
+def result_edges(fa, s):
+    """success / failure continuation of call site s, through `?` or through an
+    explicit match on the (awaited) Result: dict(ok=, err=, how=) or None"""
+    c = checked(fa, s)
+    if c is not None:
+        return {"ok": c["ok"], "err": c["err"], "how": "?"}
+    for b in fa.live():
+        t = b.term
+        if t["k"] != "switch":
+            continue
+        o = fa.origin_operand(t["discr"], b.i, len(b.stmts))
+        if o[0] != "disc":
+            continue
+        inner = o[1]
+        if inner[0] in ("poll", "branch"):
+            continue
+        if s in call_root_bb(inner):
+            m = {v: x for v, x in t["targets"]}
+            okb = m.get(0)
+            errb = m.get(1, t["otherwise"] if 1 not in m else None)
+            if okb is None:
+                okb = t["otherwise"]
+            return {"ok": okb, "err": errb, "how": "match"}
+    return None
